@@ -142,7 +142,8 @@ def probe_case(draw):
     d0 = draw(st.sampled_from([83.0, 75.0, 60.0, -80.0, 30.0, -65.0, 86.0, 45.0]))
     return dict(ml=ml, d0=d0, ra0=draw(st.sampled_from([10.0, 200.0, 340.0, 95.0])), csf=draw(st.sampled_from([None, None, 4.0, 6.0])),
                 width=draw(st.sampled_from([6.0, 10.0, 16.0])), fracs=[draw(st.sampled_from([0.9990, 0.9995, 0.9999, 0.998, 0.995, 1.001])) for _ in range(24)],
-                eps=[draw(st.sampled_from([1e-9, 1e-6, 1e-3])) for _ in range(24)], tiny=draw(st.sampled_from([1e-9, 1e-6, 1e-4])))
+                eps=[draw(st.sampled_from([1e-9, 1e-6, 1e-3])) for _ in range(24)], tiny=draw(st.sampled_from([1e-9, 1e-6, 1e-4])),
+                inward=[draw(st.sampled_from([0.0, 0.0, 0.03, 0.1, 0.2])) for _ in range(24)])
 
 
 def probe_body(case):
@@ -182,16 +183,20 @@ def probe_body(case):
                 side = 1.0 if k % 2 == 0 else -1.0
                 r1 = edge + side * case['eps'][k]
                 f = case['fracs'][k]
-                sh = math.sin(math.radians(f * ml) / 2) / math.cos(math.radians(dec))
-                if sh >= 1:
+                # the partner at the same declination, or a fraction of the match length nearer the equator (the first-list point is
+                # then the more polar of the two): hav(s) = hav(d1 - d2) + cos d1 cos d2 hav(dRA)
+                dec2_ = dec + inward * case.get('inward', [0.0] * 24)[k] * ml
+                hs = math.sin(math.radians(f * ml) / 2) ** 2 - math.sin(math.radians(dec - dec2_) / 2) ** 2
+                den = math.cos(math.radians(dec)) * math.cos(math.radians(dec2_))
+                if hs <= 0 or hs >= den:
                     continue
-                r2 = r1 - side * 2 * math.degrees(math.asin(sh))
+                r2 = r1 - side * 2 * math.degrees(math.asin(math.sqrt(hs / den)))
                 # keep the probes inside the RA extent of the anchors
                 lo_ra, hi_ra = case['ra0'], case['ra0'] + wra
                 if not (lo_ra < r1 < hi_ra):
                     continue
                 p1.append((G._wrap(r1), dec))
-                p2.append((G._wrap(r2), dec))
+                p2.append((G._wrap(r2), dec2_))
                 k += 1
     except Exception:
         note_label('grid-introspection-failed')
